@@ -1,12 +1,12 @@
 #!/bin/bash
 # Soak: every check, several VERIF_SEED values, a multiple of the quick budget.  Stops at the first
 # non-zero exit (a VIOLATION on the unchanged tree is either a genuine defect or a false alarm: both
-# need attention).  usage: tools/soak.sh [rounds] [jobs]
+# need attention).  usage: tools/soak.sh [rounds] [jobs] [seed base]
 cd "$(dirname "$0")/.."
-ROUNDS=${1:-6}; JOBS=${2:-8}
+ROUNDS=${1:-6}; JOBS=${2:-8}; BASE=${3:-7}
 for r in $(seq 1 $ROUNDS); do
   for c in C01 C02 C03 C04 C05 C06 C07 C08 C09 C10 C11 C12 C13 C14 C15 C16 C17 C18 C20; do
-    seed=$((1000 * r + 7))
+    seed=$((1000 * r + BASE))
     out=$(VERIF_SEED=$seed VERIF_REPLAY_DIR=$PWD/soak_replays ./check $c --tier quick --no-evidence --jobs $JOBS 2>&1 | tail -4)
     rc=$?
     echo "round=$r seed=$seed $(echo "$out" | tail -1)"
